@@ -34,6 +34,23 @@ FIRST_ATTEMPT = {
     "C06-8": "**missed** (needs a Kleene chain longer than the number of names) -> C06 / C01 generate bodies with chains of 2^k applications",
     "C01-8": "not a C01 matter (sparse API orderings): **missed** by C01, caught by C11 and C09",
     "C03-8": "not a C03 matter (same change as C01-8): **missed** by C03, caught by C11",
+    # round 11 (angle: scale and combination - correct on all small instances, wrong beyond a threshold)
+    "C01-11": "**missed** (fp silently stops after 256 applications) -> C01 / C06 stage *counter reachability* (2^k - c applications, k <= 9 quick / 11 thorough), judged by the reference semantics on reference diagrams",
+    "C02-11": "caught (C02 history stages, through the `Rc::ptr_eq` half of the change); **missed** by C13 -> wide histories in environments pre-filled with 2^16 / 2^17+ nodes",
+    "C03-11": "caught by the stage *equal-hash operands with the same partner*, written for this round (an `and` memo keyed by truncated operand hashes; the 64-bit collision is constructed, not searched for)",
+    "C04-11": "**missed** (quantified variable with id >= 64) -> C04 / C01 / C06 stage *padded formulas beyond 64 / 128 / 256 names*",
+    "C05-11": "**missed** (lists of 18+ operands) -> C05 / C01 stage *counting over lists of 14..21 literals*; the API stage for lists of <= 13 operands found defect F12 (bound i64::MIN) on the way",
+    "C06-11": "**missed** (u8 round counter) -> same counter-reachability stage as C01-11",
+    "C07-11": "caught by the wide stage (`model` of cubes with 65+ literals), written for this round",
+    "C08-11": "**missed** (texts above 64 KiB tokenised block by block; multi-line comments) -> C08 stage *large texts with long separators* (up to 300 KiB, thorough 1.2 MiB)",
+    "C11-11": "**missed** (ordering files above 8 KiB) -> C11 stage *large ordering files* (1 .. 64 KiB)",
+    "C12-11": "**missed** by C12 (caught by C10's wide stage) -> C12 stage *wide formulas through every output option*",
+    "C13-11": "caught by the wide-history stage (cubes of 256+ levels differing only at the bottom), written for this round; C02 / C03 wide stages catch it too",
+    "C14-11": "**missed** (u8 operand position: lists of 257+ entries) -> C14 stage *parse trees with long lists* (up to 300 entries, thorough 65537)",
+    "C16-11": "**missed** (more than 256 non-adjacent pairs) -> C16 stage *graphs of 17..26 vertices on reference diagrams*",
+    "C17-11": "**missed** (u8 cell index: root 5) -> C17 roots 5 (quick) and 6 (thorough)",
+    "C18-11": "**missed** (`--colors` on more than 64 vertices) -> C18 stage *graphs with planted answers, 60..130 vertices*",
+    "C20-11": "caught by the stage *equal-hash sub-diagrams under one root*, written for this round (retain memo keyed by a 32-bit truncation of the hash)",
     "C14-7": "**missed** (needs separately allocated equal sub-diagrams) -> C14 also exports plain values / nodes of another environment",
 }
 
@@ -56,7 +73,7 @@ def main():
            "of `/verif` whose harness points at it), quick tier, `VERIF_SEED=0`; `/repo` itself was never modified. `tests` = the",
            "repository's own 31-test suite with the change applied (`!!` = the suite itself notices the change: a weak mutant).", "",
            "### C.1 Changes written by independent sub-agents (`/verif/seeded/<ID>[-round]/`)", "",
-           "Ten rounds of sub-agents (20 each, the ninth 10; the tenth was asked for the least exercised *place* instead of a shape of change); each saw only the text of one property (from round 2 on with a short hint at an angle",
+           "Eleven rounds of sub-agents (20 each, the ninth 10; the tenth was asked for the least exercised *place* instead of a shape of change, the eleventh for changes that are correct on every small instance and go wrong beyond a threshold of size, width, count or length); each saw only the text of one property (from round 2 on with a short hint at an angle",
            "not derived from /verif) and its own worktree. Every change compiles, passes the 31 tests, and its demonstration fails",
            "with / passes without the change (re-confirmed in the lab, `meta.json`). `first attempt` says what happened when the",
            "change was first run against the checks as they were at that moment.", "",
